@@ -20,6 +20,8 @@ pub struct QGen {
   /// generate expansion nodes (prefix / wildcard / regex)
   pub expansions: bool,
   pub phrases: bool,
+  /// only prefix expansions (no wildcard / regex)
+  pub prefix_only: bool,
 }
 
 impl QGen {
@@ -34,6 +36,7 @@ impl QGen {
       scoring: true,
       expansions: true,
       phrases: true,
+      prefix_only: false,
     }
   }
 
@@ -94,8 +97,10 @@ impl QGen {
   }
 
   pub fn pattern(&self) -> BoxedStrategy<Value> {
+    let prefix_only = self.prefix_only;
     (self.any_text_field(), self.word(), 0usize..12, 1usize..4, Self::boost())
-      .prop_map(|(f, w, shape, k, b)| {
+      .prop_map(move |(f, w, shape, k, b)| {
+        let shape = if prefix_only { shape % 3 } else { shape };
         let chars: Vec<char> = w.chars().collect();
         let n = chars.len();
         let take = |a: usize, z: usize| -> String { chars[a.min(n)..z.min(n)].iter().collect() };
@@ -265,15 +270,25 @@ impl QGen {
       let rank = self.rank.clone();
       opts.push((
         1,
-        (sub.clone(), select(vec![0.5f64, 2.0, 10.0]), select(vec!["multiply", "sum", "replace", "max", "min"]), select(vec!["sum", "multiply", "max", "min", "avg"]), proptest::option::weighted(0.5, select(if rank.is_empty() { vec!["".to_string()] } else { rank.clone() })))
-          .prop_map(|(q, w, bm, sm, fvf)| {
-            let mut functions = vec![json!({"type": "weight", "weight": w})];
+        (sub.clone(), select(vec![0.5f64, 2.0, 10.0]), select(vec!["multiply", "sum", "replace", "max", "min"]), select(vec!["sum", "multiply", "max", "min", "avg"]), proptest::option::weighted(0.5, select(if rank.is_empty() { vec!["".to_string()] } else { rank.clone() })), proptest::option::weighted(0.4, select(vec!["exp", "gauss", "linear"])), proptest::option::weighted(0.3, c08::root_filter(&self.schema, 1)), proptest::option::weighted(0.2, select(vec![1.5f64, 4.0])))
+          .prop_map(move |(q, w, bm, sm, fvf, decay, wfilter, max_boost)| {
+            let mut wf = json!({"type": "weight", "weight": w});
+            if let Some(f) = wfilter {
+              wf["filter"] = f;
+            }
+            let mut functions = vec![wf];
             if let Some(f) = fvf {
               if !f.is_empty() {
                 functions.push(json!({"type": "field_value_factor", "field": f, "factor": 0.5, "modifier": "log1p", "missing": 1.0}));
               }
             }
-            json!({"type": "function_score", "query": q, "functions": functions, "boost_mode": bm, "score_mode": sm})
+            if let (Some(d), Some(f)) = (decay, rank.first()) {
+              functions.push(json!({"type": "decay", "field": f, "origin": 10.0, "scale": 5.0, "offset": 1.0, "decay": 0.5, "function": d}));
+            }
+            let v = json!({"type": "function_score", "query": q, "functions": functions, "boost_mode": bm, "score_mode": sm});
+            // max_boost is left out: what it caps is not documented
+            let _ = max_boost;
+            v
           })
           .boxed(),
       ));
